@@ -216,6 +216,11 @@ def r4(ctx):
             for bb, t in fb.calls(BR + "drop"):
                 if "field:turmoil::barriers::Barrier::id" in Slicer(ctx.w).atoms(fb, t["args"][1]):
                     ok = True
+        # ... on every path: the registry is reached through LocalKey::with in the Drop body, and no path returns around it (not even
+        # while the thread is unwinding: a caught panic leaves the thread running with a stale entry that swallows later triggers)
+        reach = [bb for bb, t in db.calls(re.compile(r"LocalKey<T>::with$|LocalKey::with$|LocalKey<T>::try_with$|LocalKey::try_with$"))] + [bb for bb, t in db.calls(BR + "drop")]
+        if ok and (not reach or always_passes(db, reach)):
+            ok = False
         ctx.inst(R, "barrier-drop:unregisters", ok, db.span, "dropping the barrier removes it from the registry" if ok else "Drop for Barrier does not unregister its id")
     rd = ctx.body(R, BR + "drop")
     if rd:
@@ -294,6 +299,8 @@ def r6(ctx):
         ctx.info(R, "feature-off", "", "unstable-fs not enabled together with unstable-barriers in this configuration")
         return
     from . import C01
+    C01.ACCESSORS = C01.TABLE_ACCESSORS
+    C01.r8(ctx)   # ... and leaving a nested fs scope puts the outer scope's hook back (the guard restores the value it saved, on every path)
     k = C01.scoped_cell_writers(ctx, R, keys={"turmoil_fs::CURRENT_CORRUPTION"})
     ctx.inst(R, "hook:accessors-found", k >= 2, "", f"{k} accessors of the corruption hook analysed" if k >= 2 else "the corruption hook's accessors (enter, fire_corruption) were not found: re-derive")
     ctx.floor(R, 3)
